@@ -55,6 +55,46 @@ NEEDS = {
     "C19-B": "input given as a SignalSlice with index-array / mask indexing",
     "C20-A": "scale != 1 and at least two writes on the same domain",
     "C20-B": "the log file already exists when iteration 0 is written",
+    "R2-C01-A": "FilterConv.override_values(index, value) called after construction (override never entered in the sensitivity mask)",
+    "R2-C01-B": "an aggregation with an AggActiveSet that discards entries (derivative normalised over all entries)",
+    "R2-C02-A": "partial seeding: every terminal output of a (sub)network unseeded while an internal signal carries a seed",
+    "R2-C02-B": "a module that returns a view of the sensitivity it received (np.real(dz), dY.T) plus a second contribution to the same source",
+    "R2-C03-A": "sparse EigenSolve, eigenvector seeds on different modes in successive sensitivities, one without a new response",
+    "R2-C03-B": "LinSolve reused for a matrix whose set of decoupled dofs shrinks (void strip, then solid)",
+    "R2-C04-A": "two sensitivity() calls between resets on Strain / Stress / ElementAverage",
+    "R2-C04-B": "FilterConv with a non-zero constant padding or override value",
+    "R2-C05-A": "dense Hermitian indefinite Fortran-ordered matrix whose Cholesky attempt fails part-way (LDL fall-back on overwritten data)",
+    "R2-C05-B": "matrix with a dof coupled purely skew-symmetrically (A_ij = -A_ji), e.g. gyroscopic terms",
+    "R2-C06-A": "reused wrapper: symmetric matrix, then a structurally non-symmetric one (triangular / arrow)",
+    "R2-C06-B": "complex non-symmetric non-Hermitian matrix, decoupled dof with non-real diagonal, trans T or H",
+    "R2-C07-A": "non-symmetric matrix with Dirichlet rows replaced (row decoupled, column not) and non-zero prescribed value",
+    "R2-C07-B": "SystemOfEquations with an unsorted dof partition and non-uniform loads / prescribed values",
+    "R2-C08-A": "2-D domain with unitz != 1 and a second module with the same material in one process",
+    "R2-C08-B": "AssembleGeneral with a non-symmetric Fortran-ordered (or transposed-view) element matrix",
+    "R2-C09-A": "numeric padding value on xmin/xmax (2-D/3-D) or ymin/ymax (3-D) with x[0] != value",
+    "R2-C09-B": "non-integer filter radius with a lattice offset between int(r) and r",
+    "R2-C10-A": "several variable signals with a scalar listed after an array",
+    "R2-C10-B": "an active constraint whose multiplier exceeds 1",
+    "R2-C11-A": "real symmetric problem with a sorting function that is not the identity permutation (descending order)",
+    "R2-C11-B": "sparse path with a strictly negative shift sigma",
+    "R2-C12-A": "element operator with two or more leading dimensions, shape (a, b, K)",
+    "R2-C12-B": "same as R2-C08-A (thermal load vs stiffness)",
+    "R2-C13-A": "two domains with permuted element counts (nelx x nely and nely x nelx) and equal ndof in one process",
+    "R2-C13-B": "shape-function derivatives evaluated on an element face / edge / corner",
+    "R2-C14-A": "an entirely void supporting layer (floating block, design detached from the base plate)",
+    "R2-C14-B": "negative print direction as a string with the sign after the axis letter ('y-')",
+    "R2-C15-A": "complex vector with sum(u_i^2) == 0 exactly, e.g. [1, 1j]",
+    "R2-C15-B": "symmetric dyad (v omitted or same array) followed by row / column zeroing d[idx, :] = 0",
+    "R2-C16-A": "AggScaling with damping > 0 and at least two response() calls",
+    "R2-C16-B": "lower_amt / upper_amt with tied values at the cut-off position",
+    "R2-C17-A": "three or more variable signals",
+    "R2-C17-B": "explicit maxvol far from the starting volume with a small move limit",
+    "R2-C18-A": "slice of a rank >= 2 signal whose tuple index is all integers or contains an integer array",
+    "R2-C18-B": "nested basic slice with from-the-end (negative) bounds",
+    "R2-C19-A": "tosig holding a square scipy sparse matrix (AssembleMass / AssembleStiffness)",
+    "R2-C19-B": "Network with fromsig the base signal, an earlier module reading a slice of it and a later one the full signal",
+    "R2-C20-A": "scale != 1 and a second write on the same domain",
+    "R2-C20-B": "multi-valued signal whose state is a reversed or transposed view",
 }
 
 
